@@ -20,3 +20,25 @@ pub fn run(case: &Value) -> Value {
     let r = eval(&covs, &case["tree"]);
     json!({"ok": cov_to(&r)})
 }
+
+// engine "consume": {"batches": [[[name, cov]..]..], "branch": bool}: every batch becomes one lcov work item
+// (written by output_lcov) fed to the real consumer loop over an unbounded channel: exercises add_results
+// (private) through the public API; returns the final result map
+pub fn run_consume(case: &Value) -> Value {
+    use grcov::{consumer, CovResultMap, ItemFormat, ItemType, WorkItem};
+    let branch = case["branch"].as_bool().unwrap_or(true);
+    let dir = tempfile::tempdir_in(".").unwrap();
+    let (tx, rx) = crossbeam_channel::unbounded();
+    for (i, b) in case["batches"].as_array().unwrap().iter().enumerate() {
+        let rs = crate::e_lcov::results_of(b);
+        let bytes = crate::e_lcov::lcov_bytes(&rs, dir.path());
+        tx.send(Some(WorkItem { format: ItemFormat::Info, item: ItemType::Content(bytes), name: format!("batch{}", i) })).unwrap();
+    }
+    tx.send(None).unwrap();
+    let map: std::sync::Mutex<CovResultMap> = std::sync::Mutex::new(Default::default());
+    consumer(dir.path(), None, &map, rx, branch, false, None);
+    let m = map.into_inner().unwrap();
+    let mut rs: Vec<(String, CovResult)> = m.into_iter().collect();
+    rs.sort_by(|a, b| a.0.as_bytes().cmp(b.0.as_bytes()));
+    json!({"ok": results_to(&rs)})
+}
